@@ -75,9 +75,24 @@ class SetEncoder(AbstractItemEncoder):
         namedTypes = value.componentType
         substrate = self.protoDict()
 
-        for idx, (key, subValue) in enumerate(value.items()):
-            if namedTypes and namedTypes[idx].isOptional and not value[idx].isValue:
-                continue
+        for idx, key in enumerate(list(value.keys())):
+            # an absent OPTIONAL or DEFAULT component is looked at, not
+            # instantiated: encoding leaves the value as it was
+            subValue = value.getComponentByPosition(
+                idx, default=None, instantiate=False)
+
+            if subValue is None:
+                if namedTypes:
+                    if namedTypes[idx].isOptional:
+                        continue
+
+                    if namedTypes[idx].isDefaulted:
+                        # the default itself stands for the absent component
+                        subValue = namedTypes[idx].asn1Object
+
+                if subValue is None:
+                    subValue = value[idx]
+
             substrate[key] = encodeFun(subValue, **options)
         return substrate
 
@@ -95,7 +110,18 @@ class SequenceOfEncoder(AbstractItemEncoder):
 
 
 class ChoiceEncoder(SequenceEncoder):
-    pass
+    def encode(self, value, encodeFun, **options):
+        inconsistency = value.isInconsistent
+        if inconsistency:
+            raise inconsistency
+
+        substrate = self.protoDict()
+
+        # only the chosen alternative
+        for key, subValue in value.items():
+            substrate[key] = encodeFun(subValue, **options)
+
+        return substrate
 
 
 class AnyEncoder(AbstractItemEncoder):
